@@ -8,7 +8,8 @@ whether the comparison happens before anything is returned.  Models are of the c
            page index, `IndexEntry::verify` per page *before* the page's entries are parsed,
            the two end-of-page heuristics of the entry loops.
 * `Aidx` — `ArchiveIndex::parse` up to and including `validate_file_size`
-           (crates/cascette-formats/src/archive/index.rs): byte at End(-13) decides the footer size,
+           (crates/cascette-formats/src/archive/index.rs): byte at End(-13) decides the footer size
+           and must be 8 (fix 6b0ee35; the two slicing panics are kept as written, now unreachable),
            `is_valid` compares `min(len, footer_hash_bytes)` bytes, the two slicing panics,
            `validate_format`, `validate_file_size`.  `checkSize = false` is `ChunkedArchiveIndex::open`.
 * `Lru`  — `lru_file::deserialize` (crates/cascette-client-storage/src/lru/lru_file.rs).
@@ -240,7 +241,8 @@ def footerCheck (H : Hash) (checkSize : Bool) (d : Bytes) : Out :=
   if n < 13 then .io
   else
     let hb := byteAt d (n - 13)
-    if n < 20 + hb then .io
+    if hb ≠ 8 then .format                                    -- fix 6b0ee35: size byte checked before it sizes anything
+    else if n < 20 + hb then .io
     else
       let f := slice d (n - (20 + hb)) 20
       let fh := d.drop (n - hb)
